@@ -592,5 +592,182 @@ theorem decodeBytes_version_byte (v : UInt8) (rest : Bytes) (hr : rest ≠ []) (
     decodeBytes (magic ++ v :: rest) = .err .notImplemented := by
   simp [decodeBytes, version_magic v rest hr, h2, h3, Res.bind]
 
+/-! ### record order (hash-map iteration order) -/
+
+theorem encList_length_perm {α : Type} (enc : α → Bytes) {xs ys : List α} (h : xs.Perm ys) :
+    (encList enc xs).length = (encList enc ys).length := by
+  induction h with
+  | nil => rfl
+  | cons x _ ih => simp [encList, ih]
+  | swap x y l => simp [encList]; omega
+  | trans _ _ ih1 ih2 => exact ih1.trans ih2
+
+/-- the same records, every section in another order -/
+structure FactsPerm (f g : RawFacts) : Prop where
+  version : f.version = g.version
+  terms : f.terms.Perm g.terms
+  parents : f.parents.Perm g.parents
+  genes : f.genes.Perm g.genes
+  omim : f.omim.Perm g.omim
+  orpha : f.orpha.Perm g.orpha
+
+theorem FileOK.perm {fv : Nat} {f g : RawFacts} (hp : FactsPerm f g) (h : FileOK fv f) : FileOK fv g := by
+  obtain ⟨h123, hf, hm⟩ := h
+  refine ⟨h123, ?_, ?_⟩
+  · exact {
+      ver := hp.version ▸ hf.ver
+      terms := fun t ht => hf.terms t (hp.terms.mem_iff.2 ht)
+      parents := fun t ht => hf.parents t (hp.parents.mem_iff.2 ht)
+      genes := fun t ht => hf.genes t (hp.genes.mem_iff.2 ht)
+      omim := fun t ht => hf.omim t (hp.omim.mem_iff.2 ht)
+      orpha := fun t ht => hf.orpha t (hp.orpha.mem_iff.2 ht)
+      termsLen := by
+        have := encList_length_perm (encTerm fv) hp.terms
+        simp only [encTerms] at *; rw [← this]; exact hf.termsLen
+      parentsLen := by
+        have := encList_length_perm encParents hp.parents
+        simp only [encParentRecs] at *; rw [← this]; exact hf.parentsLen
+      genesLen := by
+        have := encList_length_perm encGene hp.genes
+        simp only [encRecs] at *; rw [← this]; exact hf.genesLen
+      omimLen := by
+        have := encList_length_perm encDisease hp.omim
+        simp only [encRecs] at *; rw [← this]; exact hf.omimLen
+      orphaLen := by
+        have := encList_length_perm encDisease hp.orpha
+        simp only [encRecs] at *; rw [← this]; exact hf.orphaLen }
+  · intro h1
+    have := encList_length_perm (encTerm 1) hp.terms
+    simp only [encTerms] at *; rw [← this]; exact hm h1
+
+theorem projFacts_perm (fv : Nat) {f g : RawFacts} (hp : FactsPerm f g) :
+    FactsPerm (projFacts fv f) (projFacts fv g) := by
+  refine ⟨?_, ?_, hp.parents, hp.genes, hp.omim, ?_⟩
+  · simp [projFacts, hp.version]
+  · exact hp.terms.map _
+  · simp only [projFacts]; split
+    · exact hp.orpha
+    · exact List.Perm.refl _
+
+/-! ### name truncation of `as_bytes` -/
+
+theorem utf8_cons (c : Char) (cs : List Char) : utf8 (c :: cs) = String.utf8EncodeChar c ++ utf8 cs := by
+  simp [utf8]
+
+theorem utf8_takeFit_le (n : Nat) (cs : List Char) : (utf8 (takeFit n cs)).length ≤ n := by
+  induction cs generalizing n with
+  | nil => simp [takeFit, utf8]
+  | cons c cs ih =>
+    simp only [takeFit]
+    split
+    · rw [utf8_cons, List.length_append]
+      have := ih (n - (String.utf8EncodeChar c).length)
+      omega
+    · simp [utf8]
+
+theorem takeFit_prefix (n : Nat) (cs : List Char) : takeFit n cs <+: cs := by
+  induction cs generalizing n with
+  | nil => simp [takeFit]
+  | cons c cs ih =>
+    simp only [takeFit]
+    split
+    · exact List.prefix_cons_inj c |>.2 (ih _)
+    · exact List.nil_prefix
+
+theorem takeFit_eq_self (n : Nat) (cs : List Char) (h : (utf8 cs).length ≤ n) : takeFit n cs = cs := by
+  induction cs generalizing n with
+  | nil => simp [takeFit]
+  | cons c cs ih =>
+    rw [utf8_cons, List.length_append] at h
+    simp only [takeFit]
+    rw [if_pos (by omega), ih _ (by omega)]
+
+/-- `takeFit` keeps the LONGEST prefix that fits -/
+theorem takeFit_maximal (n : Nat) (cs p : List Char) (hp : p <+: cs) (hfit : (utf8 p).length ≤ n) :
+    p <+: takeFit n cs := by
+  induction cs generalizing n p with
+  | nil => simp at hp; subst hp; exact List.nil_prefix
+  | cons c cs ih =>
+    cases p with
+    | nil => exact List.nil_prefix
+    | cons a p' =>
+      obtain ⟨rfl, hp'⟩ := List.cons_prefix_cons.1 hp
+      rw [utf8_cons, List.length_append] at hfit
+      simp only [takeFit]
+      rw [if_pos (by omega)]
+      exact (List.prefix_cons_inj a).2 (ih _ p' hp' (by omega))
+
+theorem truncName_le (cs : List Char) : (utf8 (truncName cs)).length ≤ 255 := utf8_takeFit_le 255 cs
+
+/-! ### `as_bytes`: encodability of an ontology -/
+
+/-- what `Ontology::as_bytes` needs of the ontology (NO bound on name lengths: over-long term and
+gene names are cut) -/
+structure EncOK (o : Onto) : Prop where
+  ver : o.version.1 < 65536 ∧ o.version.2.1 < 256 ∧ o.version.2.2 < 256
+  terms : ∀ t ∈ o.terms, t.id < maxId ∧ (∀ r, t.replacement = some r → 0 < r ∧ r < 4294967296) ∧
+    t.parents.length < 1000000000 ∧ ∀ i ∈ t.parents, i < 4294967296
+  genes : ∀ r ∈ o.genes, r.id < 4294967296 ∧ r.hpos.length < 1000000000 ∧ ∀ i ∈ r.hpos, i < 4294967296
+  omim : ∀ r ∈ o.omim, DiseaseOK r
+  orpha : ∀ r ∈ o.orpha, DiseaseOK r
+  termsLen : (encTerms 3 (factsOf o).terms).length < 4294967296
+  parentsLen : (encParentRecs (factsOf o).parents).length < 4294967296
+  genesLen : (encRecs encGene (factsOf o).genes).length < 4294967296
+  omimLen : (encRecs encDisease o.omim).length < 4294967296
+  orphaLen : (encRecs encDisease o.orpha).length < 4294967296
+
+theorem mem_termFacts {x : Term} {ts : List Term} : x ∈ termFacts ts ↔ ∃ t ∈ ts, x = termFact t := by
+  induction ts with
+  | nil => simp [termFacts]
+  | cons t ts ih => simp [termFacts, ih]
+
+theorem mem_parentFacts {x : Nat × List Nat} {ts : List Term} :
+    x ∈ parentFacts ts ↔ ∃ t ∈ ts, x = (t.id, t.parents) := by
+  induction ts with
+  | nil => simp [parentFacts]
+  | cons t ts ih => simp [parentFacts, ih]
+
+theorem mem_geneFacts {x : Rec} {rs : List Rec} :
+    x ∈ geneFacts rs ↔ ∃ r ∈ rs, x = { r with name := truncName r.name } := by
+  induction rs with
+  | nil => simp [geneFacts]
+  | cons r rs ih => simp [geneFacts, ih]
+
+theorem map_clean_termFacts (ts : List Term) : (termFacts ts).map cleanTerm = termFacts ts := by
+  induction ts with
+  | nil => rfl
+  | cons t ts ih => simp [termFacts, ih, cleanTerm, termFact]
+
+theorem projFacts_factsOf (o : Onto) : projFacts 3 (factsOf o) = factsOf o := by
+  have e : projTerm 3 = cleanTerm := by funext t; simp [projTerm]
+  simp [projFacts, factsOf, e, map_clean_termFacts]
+
+theorem FileOK_factsOf (o : Onto) (h : EncOK o) : FileOK 3 (factsOf o) := by
+  refine ⟨Or.inr (Or.inr rfl), ?_, by simp⟩
+  exact {
+    ver := h.ver
+    terms := by
+      intro x hx
+      obtain ⟨t, ht, rfl⟩ := mem_termFacts.1 hx
+      obtain ⟨h1, h2, _⟩ := h.terms t ht
+      exact ⟨h1, truncName_le _, h2⟩
+    parents := by
+      intro x hx
+      obtain ⟨t, ht, rfl⟩ := mem_parentFacts.1 hx
+      obtain ⟨h1, _, h3, h4⟩ := h.terms t ht
+      exact ⟨Nat.lt_trans h1 maxId_lt, h3, h4⟩
+    genes := by
+      intro x hx
+      obtain ⟨r, hr, rfl⟩ := mem_geneFacts.1 hx
+      obtain ⟨h1, h2, h3⟩ := h.genes r hr
+      exact ⟨h1, truncName_le _, h2, h3⟩
+    omim := h.omim
+    orpha := h.orpha
+    termsLen := h.termsLen
+    parentsLen := h.parentsLen
+    genesLen := h.genesLen
+    omimLen := h.omimLen
+    orphaLen := h.orphaLen }
+
 end Binary
 end Hpo
